@@ -27,6 +27,7 @@ What is proved here, and what is not:
     NOT proved (harness only)
   Helper lemmas of sections (6)–(11) live in CLModel/Proofs/C02X*.lean (namespace `C02X`).
 -/
+import CLModel.Proofs.C02Hist
 import CLModel.Parser.Values
 import CLModel.Proofs.C02Props
 import CLModel.Proofs.C02Po
@@ -854,5 +855,80 @@ example : (definesGetNext #[35, 102, 105, 108, 116, 101, 114, 32, 101, 109, 112,
 -- the flag is what the instruction sets (`C02P.NBlock.tr`)
 example : C02P.NBlock.tr false (.instr [102, 105, 108, 116, 101, 114] 1 [101, 109, 112, 116, 121, 76, 105, 110, 101, 115] [10]) = true ∧
     C02P.NBlock.tr true (.instr [117, 110, 102, 105, 108, 116, 101, 114] 1 [101, 109, 112, 116, 121, 76, 105, 110, 101, 115] [10]) = false := by decide
+
+/-! ## Round 5: recovery does not depend on what was consumed before (one long-lived parser object)
+
+`C01M.stepG` (Parser/C01Gen.lean) is the parser OBJECT: Context objects, `parser.ctx`, and the generator objects returned
+by `walk()` / `iter()` with their suspension points.  A history is any list of `read` (readUnicode), `mk` (a new
+generator), `next g k` (k entries consumed), `drain g` (`list(g)`), `close g` (abandoned). -/
+
+open C01M C01P in
+/-- Whatever happened on the parser object before (`h`: other files read; passes started, partially consumed,
+    interleaved, abandoned), and whatever generator operations `h2` follow `readUnicode(t)` — e.g. a first pass over `t`
+    abandoned after one entry —, a COMPLETE pass shows exactly the entries of `walk f t`; with the round-trip theorems:
+    exactly the printed records and exactly the garbage as junk. -/
+theorem complete_pass_recovers_exactly (f : Fmt) (h h2 : List Op) (t : Array Nat) (es : List Entry)
+    (hw : walk f t = .done es) (hnr : ∀ op ∈ h2, ∀ t, op ≠ .read t) (loc : Bool) :
+    runG f (execG f {} (h ++ [.read t] ++ h2)) [.mk loc, .drain (countMk (h ++ [.read t] ++ h2))] =
+      [.full (.done (if loc then es.filter Entry.localizable else es))] :=
+  C02H.hist_recovers f h h2 t es hw hnr loc
+
+open C01M C01P in
+/-- properties, the printed class with garbage lines (`garbage_local_properties`), on a used parser object -/
+theorem history_roundtrip_properties (h h2 : List Op) (hnr : ∀ op ∈ h2, ∀ t, op ≠ .read t)
+    (xs : List C02P.PGBlock) (tail : Option (List Nat × List Nat)) (hg : ∀ x ∈ xs, x.Good')
+    (htail : ∀ g gap, tail = some (g, gap) → C02P.PGarbage g gap)
+    (hlic : ∀ x r, xs.head? = some x → x.junk = none → x.b = .record r → r.NoLicense 0) :
+    runG .properties (execG .properties {} (h ++ [.read (C02P.printPropsG xs tail).toArray] ++ h2))
+        [.mk false, .drain (countMk (h ++ [.read (C02P.printPropsG xs tail).toArray] ++ h2))] =
+      [.full (.done (C02P.propsGEntries xs tail))] :=
+  complete_pass_recovers_exactly .properties h h2 _ _ (garbage_local_properties xs tail hg htail hlic).1 hnr false
+
+open C01M C01P in
+/-- PO -/
+theorem history_roundtrip_po (h h2 : List Op) (hnr : ∀ op ∈ h2, ∀ t, op ≠ .read t)
+    (xs : List (C02P.GB C02P.PoBlock)) (tail : Option (List Nat × List Nat))
+    (hg : ∀ x ∈ xs, x.b.Good' ∧ ∀ g gap, x.junk = some (g, gap) → C02P.PoGarbage g gap)
+    (htail : ∀ g gap, tail = some (g, gap) → C02P.PoGarbage g gap)
+    (hlic : ∀ x r, xs.head? = some x → x.junk = none → x.b = .record r → r.NoLicense 0) :
+    runG .po (execG .po {} (h ++ [.read (C02P.poSpec.gprint xs tail).toArray] ++ h2))
+        [.mk false, .drain (countMk (h ++ [.read (C02P.poSpec.gprint xs tail).toArray] ++ h2))] =
+      [.full (.done (C02P.poSpec.gentries xs tail))] :=
+  complete_pass_recovers_exactly .po h h2 _ _ (garbage_local_po xs tail hg htail hlic).1 hnr false
+
+open C01M C01P in
+/-- ini -/
+theorem history_roundtrip_ini (h h2 : List Op) (hnr : ∀ op ∈ h2, ∀ t, op ≠ .read t)
+    (xs : List (C02P.GB C02P.IBlock)) (tail : Option (List Nat × List Nat))
+    (hg : ∀ x ∈ xs, x.b.Good' ∧ ∀ g gap, x.junk = some (g, gap) → C02P.IGarbage g gap)
+    (htail : ∀ g gap, tail = some (g, gap) → C02P.IGarbage g gap)
+    (hlic : ∀ x, xs.head? = some x → x.junk = none → x.b.NoLicense 0) :
+    runG .ini (execG .ini {} (h ++ [.read (C02P.iniSpec.gprint xs tail).toArray] ++ h2))
+        [.mk false, .drain (countMk (h ++ [.read (C02P.iniSpec.gprint xs tail).toArray] ++ h2))] =
+      [.full (.done (C02P.iniSpec.gentries xs tail))] :=
+  complete_pass_recovers_exactly .ini h h2 _ _ (roundtrip_ini_full_partial xs tail hg htail hlic).1 hnr false
+
+open C01M C01P in
+/-- inc: also when an abandoned pass left `filter_empty_lines` set on the Context (`DefinesParser.walk` resets it) -/
+theorem history_roundtrip_inc (h h2 : List Op) (hnr : ∀ op ∈ h2, ∀ t, op ≠ .read t)
+    (xs : List (C02P.GB C02P.NBlock)) (tail : Option (List Nat × List Nat))
+    (hg : C02P.NGoodAll false xs) (htail : ∀ g gap, tail = some (g, gap) → C02P.NGarbage g gap) :
+    runG .inc (execG .inc {} (h ++ [.read (C02P.incSpec.gprint xs tail).toArray] ++ h2))
+        [.mk false, .drain (countMk (h ++ [.read (C02P.incSpec.gprint xs tail).toArray] ++ h2))] =
+      [.full (.done (C02P.incSpec.gentries xs tail))] :=
+  complete_pass_recovers_exactly .inc h h2 _ _ (roundtrip_inc_full_partial xs tail hg htail).1 hnr false
+
+open C01M C01P in
+/-- dtd -/
+theorem history_roundtrip_dtd (h h2 : List Op) (hnr : ∀ op ∈ h2, ∀ t, op ≠ .read t)
+    (bom : Bool) (xs : List (C02P.GB C02P.DBlock)) (tail : Option (List Nat × List Nat))
+    (hg : ∀ x ∈ xs, x.b.Good' ∧ ∀ g gap, x.junk = some (g, gap) → C02P.DGarbage g gap ∧ x.b.JOk)
+    (htail : ∀ g gap, tail = some (g, gap) → C02P.DGarbage g gap)
+    (hlic : ∀ x, xs.head? = some x → x.junk = none → x.b.NoLicense (if bom then 1 else 0))
+    (hne : bom = true → xs ≠ []) :
+    runG .dtd (execG .dtd {} (h ++ [.read ((if bom then [65279] else []) ++ C02P.dtdSpec.gprint xs tail).toArray] ++ h2))
+        [.mk false, .drain (countMk (h ++ [.read ((if bom then [65279] else []) ++ C02P.dtdSpec.gprint xs tail).toArray] ++ h2))] =
+      [.full (.done (C02P.dtdSpec.gentriesAt (if bom then 1 else 0) xs tail))] :=
+  complete_pass_recovers_exactly .dtd h h2 _ _ (roundtrip_dtd_full_partial bom xs tail hg htail hlic hne).1 hnr false
 
 end C02
